@@ -36,6 +36,11 @@ func c11Snap(s gts.Sequence) (out string) {
 		switch v := s.Info().(type) {
 		case seqio.GenBankFields:
 			fmt.Fprintf(&sb, "gb:%s:%v:%v:%q:%q:%v:%v:%v|", v.LocusName, v.Topology, v.Region, v.Definition, v.Accession, v.Keywords, v.References, v.Comments)
+			fmt.Fprintf(&sb, "gb2:%v:%s:%v:%q:%v:%v:%v:", v.Molecule, v.Division, v.Date, v.Version, v.DBLink, v.Source, v.Contig)
+			for _, x := range v.Extra {
+				fmt.Fprintf(&sb, "%s=%q;", x.Name, x.Value)
+			}
+			sb.WriteString("|")
 		default:
 			fmt.Fprintf(&sb, "%v|", v)
 		}
@@ -129,7 +134,9 @@ func c11Heap(shape string) []gts.Sequence {
 		if kind == "genbank" {
 			// Origin wraps its own formatted buffer; residues shape then only matters through WithBytes
 			f := seqio.GenBankFields{LocusName: fmt.Sprint(info), Molecule: gts.DNA, Topology: gts.Circular,
-				References: []seqio.Reference{{Number: 2, Info: "(bases 1 to 4)"}, {Number: 5, Info: "(bases 3 to 9)"}}, Keywords: []string{"k"}}
+				References: []seqio.Reference{{Number: 2, Info: "(bases 1 to 4)"}, {Number: 5, Info: "(bases 3 to 9)"}}, Keywords: []string{"k"},
+				DBLink: seqio.Dictionary{{Key: "BioProject", Value: "P1"}}, Source: seqio.Organism{Species: "S s", Name: "S s", Taxon: []string{"A", "B"}},
+				Comments: []string{"c1", "c2"}, Extra: []seqio.ExtraField{seqio.GenBankExtraField("PRIMARY", "x")}, Version: "V.1", Accession: "V", Definition: "d"}
 			return seqio.GenBank{Fields: f, Table: t, Origin: seqio.NewOrigin(b)}
 		}
 		return gts.New(info, t, b)
